@@ -481,8 +481,14 @@ class Run:
                 if len(sm) > 1:
                     return "duplicate-flow-after-back"
                 q = self.parent_of(q, by_tid)
-        if self.in_catch_subtree(d["nid"]) and any(e.get("target_state") == "Running" and e["action"] in ("Next", "Submit", "Remove", "Skip") for e in hist):
-            return "catch-steps-left-open-after-closing-running-act"
+        closed_running = [e for e in hist if e.get("target_state") == "Running" and e["action"] in ("Next", "Submit", "Remove", "Skip")]
+        if closed_running:
+            # a client closed an act that was Running (a composite act, or an act whose catch steps run): everything beneath it stays open
+            q = p
+            while q is not None:
+                if q["kind"] == "Act" and any(e.get("target") == q["nid"] or (self.node_attr(q["nid"]) is None and e.get("dyn_index") is not None) for e in closed_running):
+                    return "client-closed-running-act-over-open-children"
+                q = self.parent_of(q, by_tid)
         if ending == "Aborted" and did("Abort"):
             return "open-sibling-after-abort"
         return "%s=%s under %s" % (d["kind"], d["state"], ("%s=%s" % (p["kind"], p["state"])) if p is not None else "root")
